@@ -1,9 +1,35 @@
 """C09 configuration."""
 PROP = dict(
     quick_n=4000, thorough_n=100000,
-    trusted_base=[],
-    assumptions=[],
-    level_text="(in progress)",
+    trusted_base=[
+        "values are modelled by their denotation (Arrai.V); the Go type switches of the Bind methods (value.(Array) with offset 0 and "
+        "no holes | EmptySet, value.(Dict) | EmptySet, value.(Tuple), value.(Set)) are modelled by the views asArr/asDict/.tup/asSet of "
+        "the denotation, i.e. the dynamic Go type of a value is assumed to be a function of what it denotes (the subject of C02); "
+        "validated on every generated case, including values written as plain set literals",
+        "Value.Equal, Set.Has/Without, Tuple.Get/Project/Names and frozen.Map.Get/Without are modelled by structural equality, "
+        "membership and filtering on canonical V (the subject of C01/C02)",
+        "Scope is a frozen map; it is modelled as an association list whose visible binding is the first one (lookup semantics)",
+        "compilePattern & co. are modelled by the shape of `Pat` (which rel.Pattern each syntactic form becomes); the parser itself is "
+        "exercised only by the correspondence run",
+    ],
+    assumptions=[
+        "patterns: NUM/true/false literals, names, `_`, (expr) with closed literal expressions or names of the enclosing scope, array / "
+        "tuple / dict / set patterns, ...rest, ?: fallbacks with closed literal defaults, nested to any depth; no dynamic @{x} names, "
+        "no sparse `[a, , c]` array patterns (they panic in FallbackPattern.String - a C10 matter), dict-pattern keys are non-negative "
+        "numbers or strings (a parenthesised key panics in DictPattern.Bind - C10)",
+        "values: everything Lit generates (numbers, strings, bytes, arrays with offsets and holes, dicts with single-valued keys, sets, "
+        "tuples, relations), depth <= 3",
+        "genuinely non-deterministic patterns (two `...`, a name and `...` in a set pattern, ...) have no specified result; the code "
+        "rejects them and the check only demands an error there",
+    ],
+    level_text="Proof: 25 Lean theorems. Spec.bind is a sound and complete decision procedure for `Matches` (the pattern read as an expression "
+               "with the bound names substituted rebuilds the value; exactly the pattern's names are bound; ...rest is the unmatched remainder; "
+               "fallbacks only for absent components) and matches of deterministic patterns are unique. The transliteration of "
+               "Array/Tuple/Dict/Set/Expr/Exprs/Ident/ExtraElement-Pattern.Bind with the repaired Scope.MatchedUpdate equals Spec.bind for every "
+               "supported pattern and every value, hence it is sound, complete and panic-free there; a non-matching let/call is an error and "
+               "cond takes the first matching arm. Partial outside `supported`: four narrow known-finding classes, each with a refutation "
+               "of the unrestricted statement. The model is tied to /repo by ~4k (quick) / ~134k (thorough, incl. an exhaustive family) "
+               "generated let / call / cond programs per run.",
     design_ref="DESIGN.md section 6, C09",
     watch=["rel.ArrayPattern.Bind", "rel.TuplePattern.Bind", "rel.validTuplePattern", "rel.DictPattern.Bind", "rel.SetPattern.Bind",
            "rel.ExprPattern.Bind", "rel.ExprsPattern.Bind", "rel.IdentPattern.Bind", "rel.FallbackPattern.Bind",
